@@ -220,9 +220,15 @@ theorem validVarColl_iff (raw : List (Int × Int)) (hne : raw ≠ []) :
   simp only [h1, Bool.not_false, Bool.true_and, Bool.and_eq_true, List.all_eq_true, decide_eq_true_eq,
     pairwiseDisjoint_iff]
 
-/-- full statement (fails: F-C19n): for ALL lists.  Proved for non-empty lists. -/
-theorem mkVarColl_spec_partial (raw : List (Int × Int)) (hne : raw ≠ []) :
+/-- `VariantIntervalCollection.__init__` meets the specification for ALL lists (the empty list is refused with
+    InvalidAnnotationError since 7977ad0; before that repair it ended in a builtin ValueError: F-C19n).  In particular
+    the test of ADJACENT pairs of the start-sorted list finds every overlapping pair. -/
+theorem mkVarColl_spec (raw : List (Int × Int)) :
     Spec.Validate.okMkVarColl raw (outOf projVar (mkVarColl raw)) = true := by
+  by_cases hne : raw = []
+  · subst hne
+    simp [mkVarColl, mkVarCollOf, bind, Except.bind, pure, Except.pure, raise, outOf, Spec.Validate.okMkVarColl,
+      Spec.Validate.validVarColl]
   obtain ⟨h1, h2⟩ := mapM_mkVariant raw
   have hvc := validVarColl_iff raw hne
   by_cases hv : ∀ p ∈ raw, validVar p
@@ -242,7 +248,8 @@ theorem mkVarColl_spec_partial (raw : List (Int × Int)) (hne : raw ≠ []) :
     have hmne : raw.map natPair ≠ [] := by simpa using hne
     have hsne : sortByStart (raw.map natPair) ≠ [] := by
       intro h0; rw [h0] at hperm; exact hmne hperm.symm.eq_nil
-    simp only [mkVarColl, hmap, bind, Except.bind, mkVarCollOf]
+    have hme : (raw.map natPair).isEmpty = false := by simpa using hmne
+    simp only [mkVarColl, hmap, bind, Except.bind, mkVarCollOf, hme, Bool.false_eq_true, ite_false]
     by_cases ho : adjacentOverlap (sortByStart (raw.map natPair)) = true
     · have hnot : ¬ raw.Pairwise (fun a b => ¬ (a.1 < b.2 ∧ b.1 < a.2)) := by
         intro h
@@ -252,30 +259,25 @@ theorem mkVarColl_spec_partial (raw : List (Int × Int)) (hne : raw ≠ []) :
         rw [Bool.eq_false_iff]; exact fun h => hnot (hvc.mp h).2
       simp [ho, raise, outOf, Spec.Validate.okMkVarColl, hvf]
     · have hof : adjacentOverlap (sortByStart (raw.map natPair)) = false := by simpa using ho
-      have hempty : (sortByStart (raw.map natPair)).isEmpty = false := by simpa using hsne
       have hvt : Spec.Validate.validVarColl raw = true := hvc.mpr ⟨hv, hdis.mp (hadj.mp hof)⟩
       have hmin := minStart_cast raw hne hv
       have hmax := maxEnd_cast raw hne hv
       rw [← minStart_perm hperm hsne] at hmin
       rw [← maxEnd_perm hperm hsne] at hmax
-      simp [hof, hempty, pure, Except.pure, outOf, projVar, Spec.Validate.okMkVarColl, hvt, hmin, hmax]
+      simp [hof, pure, Except.pure, outOf, projVar, Spec.Validate.okMkVarColl, hvt, hmin, hmax]
   · obtain ⟨k, hk⟩ := h2 hv
     have hvf : Spec.Validate.validVarColl raw = false := by
       rw [Bool.eq_false_iff]; exact fun h => hv (hvc.mp h).1
     simp [mkVarColl, hk, bind, Except.bind, outOf, Spec.Validate.okMkVarColl, hvf]
 
-/-- exactly when the constructor fails with an internal error (F-C19n): the empty list -/
-theorem mkVarColl_internal_iff (raw : List (Int × Int)) :
-    (∃ c, mkVarColl raw = .error (.internal c)) ↔ raw = [] := by
-  constructor
-  · rintro ⟨c, hc⟩
-    by_cases hne : raw = []
-    · exact hne
-    · have := mkVarColl_spec_partial raw hne
-      rw [hc] at this
-      simp [outOf, Spec.Validate.okMkVarColl] at this
-  · intro h; subst h
-    refine ⟨"ValueError", ?_⟩
-    simp [mkVarColl, mkVarCollOf, sortByStart, adjacentOverlap, bind, Except.bind, pure, Except.pure]
+theorem mkVarColl_noInternal (raw : List (Int × Int)) : NoInternal (mkVarColl raw) := by
+  intro c hc
+  have := mkVarColl_spec raw
+  rw [hc] at this
+  simp [outOf, Spec.Validate.okMkVarColl] at this
+
+/-- regression fact (F-C19n, repaired by 7977ad0): the empty collection is refused with InvalidAnnotationError -/
+theorem mkVarColl_empty_refused : mkVarColl [] = .error (.doc .InvalidAnnotation) := by
+  simp [mkVarColl, mkVarCollOf, bind, Except.bind, pure, Except.pure, raise]
 
 end BioCantor.Proofs.Val
